@@ -1,0 +1,117 @@
+//go:build verif
+
+package chacha20
+
+// Contracts for govc (/verif). Comments only.
+//
+// spec.ks(s, q) is byte q of the keystream of Cipher s (block q/64 of the
+// RFC 8439 block function under s.key and s.nonce, byte q%64). The block
+// function is not interpreted; these contracts decide the stream position
+// bookkeeping: which keystream byte is combined with which input byte, for
+// every split of the input and every SetCounter, and the 2^32-block limit.
+
+// blk: logical block counter (2^32 once the last block has been produced).
+//@ pred blk(s) = ite(s.overflow, 4294967296, s.counter)
+// pos: stream position of the next keystream byte that will be used.
+//@ pred pos(s) = 64 * blk(s) - s.len
+// Representation invariant: s.len buffered bytes, the tail of the last generated block.
+//@ pred cinv(s) = 0 <= s.len && s.len < 64 && implies(s.overflow, s.counter == 0) && implies(s.len > 0, blk(s) >= 1) &&
+//@ |   forall(j, 0, 64, implies(j >= 64 - s.len, s.buf[j] == spec.ks(s, 64 * (blk(s) - 1) + j)))
+
+//@ func quarterRound
+//@ props C03
+//@ pure
+
+//@ func addXor
+//@ props C03
+//@ may_panic_when len(src) < 4 || len(dst) < 4
+//@ modifies dst[0:4]
+
+//@ func (*Cipher).xorKeyStreamBlocksGeneric
+//@ props C03
+//@ panics_when len(dst) != len(src) || len(dst) % 64 != 0
+//@ requires !(sameobj(dst, src) && len(src) > 0 && off(dst) != off(src) && off(dst) < off(src) + len(src) && off(src) < off(dst) + len(dst))
+//@ modifies s.counter
+//@ modifies s.precompDone
+//@ modifies s.p1
+//@ modifies s.p5
+//@ modifies s.p9
+//@ modifies s.p13
+//@ modifies s.p2
+//@ modifies s.p6
+//@ modifies s.p10
+//@ modifies s.p14
+//@ modifies s.p3
+//@ modifies s.p7
+//@ modifies s.p11
+//@ modifies s.p15
+//@ modifies dst[0:len(dst)]
+//@ ensures s.counter == (old(s.counter) + len(src) / 64) % 4294967296
+//@ assumed_ensures forall(i, 0, len(dst), dst[i] == old(src[i]) ^ spec.ks(s, 64 * old(s.counter) + i))
+//@ loop 1 invariant len(src) == len(dst) && len(src) % 64 == 0 && len(src) <= len(entry(src))
+//@ loop 1 invariant sameobj(src, entry(src)) && off(src) + len(src) == off(entry(src)) + len(entry(src))
+//@ loop 1 invariant sameobj(dst, entry(dst)) && off(dst) + len(dst) == off(entry(dst)) + len(entry(dst))
+//@ loop 1 invariant s.counter == (before(s.counter) + (len(entry(src)) - len(src)) / 64) % 4294967296
+
+//@ func (*Cipher).xorKeyStreamBlocks
+//@ inline
+
+// SetCounter panics on rollback (and once the stream is exhausted); otherwise
+// the next keystream byte is the first byte of block `counter`.
+//@ func (*Cipher).SetCounter
+//@ props C03
+//@ requires cinv(s)
+//@ panics_when s.overflow || counter < (s.counter - (s.len / 64) % 4294967296 + 4294967296) % 4294967296
+//@ modifies s.counter
+//@ modifies s.len
+//@ ensures cinv(s) && pos(s) == 64 * counter && pos(s) >= old(pos(s))
+//@ ensures s.overflow == old(s.overflow)
+//@ canary ensures s.len == old(s.len)
+
+//@ func (*Cipher).XORKeyStream
+//@ props C03
+//@ requires cinv(s)
+//@ requires ref(dst) != ref(s.buf[:]) && ref(src) != ref(s.buf[:])
+//@ panics_when len(src) > 0 && (len(dst) < len(src) ||
+//@ |   (sameobj(dst, src) && off(dst) != off(src) && off(dst) < off(src) + len(src) && off(src) < off(dst) + len(src)) ||
+//@ |   pos(s) + len(src) > 274877906944)
+//@ modifies s.*
+//@ modifies dst[0:len(src)]
+//@ ensures cinv(s)
+//@ ensures pos(s) == old(pos(s)) + len(src)
+//@ ensures forall(i, 0, len(src), dst[i] == old(src[i]) ^ spec.ks(s, old(pos(s)) + i))
+//@ ensures forall(k, 0, 8, s.key[k] == old(s.key[k])) && forall(k, 0, 3, s.nonce[k] == old(s.nonce[k]))
+//@ canary ensures len(src) == 0
+//@ canary ensures s.len == 0
+//@ loop 1 invariant -1 <= rangeindex && rangeindex < len(keyStream)
+//@ loop 1 invariant forall(k, 0, rangeindex + 1, dst[k] == before(src[k]) ^ spec.ks(s, before(pos(s)) + k))
+//@ loop 1 invariant forall(k, rangeindex + 1, len(src), src[k] == before(src[k]))
+
+//@ func hChaCha20
+//@ props C03
+//@ may_panic_when len(key) == 32 && len(nonce) == 16 && len(out) < 32
+//@ modifies out[0:32]
+//@ ensures iff(result1 == nil, len(key) == 32 && len(nonce) == 16)
+//@ ensures implies(result1 == nil, result0 == out)
+//@ ensures implies(result1 != nil, result0 == nil)
+
+//@ func HChaCha20
+//@ props C03
+//@ ensures iff(result1 == nil, len(key) == 32 && len(nonce) == 16)
+//@ ensures implies(result1 == nil, len(result0) == 32 && newobj(result0))
+
+// A new cipher stands at stream position 0 with nothing buffered.
+//@ func newUnauthenticatedCipher
+//@ props C03
+//@ nonnil c
+//@ modifies c.key
+//@ modifies c.nonce
+//@ ensures iff(result1 == nil, len(key) == 32 && (len(nonce) == 12 || len(nonce) == 24))
+//@ ensures implies(result1 == nil, result0 == c)
+//@ ensures implies(result1 != nil, result0 == nil)
+
+//@ func NewUnauthenticatedCipher
+//@ props C03
+//@ ensures iff(result1 == nil, len(key) == 32 && (len(nonce) == 12 || len(nonce) == 24))
+//@ ensures implies(result1 == nil, result0 != nil && cinv(result0) && pos(result0) == 0)
+//@ canary ensures result1 == nil
